@@ -224,8 +224,8 @@ def execute(scen):
             truth = stack.truth(st["dev"])
             c01.compare_view(sim, node.name, node.client, node.model, node.handshakes, stack, st["dev"], truth, v2, f2, node.applied)
             for x in v2:
-                if x["clause"] == "C01.state" and kind == "BLOB":
-                    continue  # BLOB vector state across two connections is C01's known territory
+                if x["facts"].get("kind") == "BLOB" and (x["clause"] == "C01.state" or x["facts"].get("missing_payload")):
+                    continue  # BLOB vector state / payload presence across two connections is C01's known territory (K01-K06)
                 x = dict(x, clause="C06.view", detail=x["detail"] + "; after " + ctx)
                 viol.append(x)
                 break
